@@ -24,7 +24,9 @@ ASSUMPTIONS = ["the exact form of a disambiguated accessor (suffix with the colu
 ALPHA = ["a", "A", "a b", "a_", "a__1", "a__1_", "sum", "T", "class", "", None, "1", "1x", "c1", "col0_", "col1_", "é", "_",
          "#1 seed", "_2nd", "a_b", "cols", "name", "for",
          # letters whose case mapping is unusual: U+0130 lower-cases to 'i' + a combining dot, U+017F / U+0131 match [a-z] under re.IGNORECASE
-         "\u0130stanbul", "\u017fum", "\u0131", "\u0130", "i"]
+         "\u0130stanbul", "\u017fum", "\u0131", "\u0130", "i",
+         # look-alikes of generated accessors with leading zeros / huge indices / signs
+         "a__01", "a__007", "a__00", "a__10"]
 ALPHA_H = ["a", "A", "a b", "sum", None, "col0_"]
 
 
